@@ -189,6 +189,25 @@ CLAIMED["C04"] = dict(
          "(unitarity, ordering, non-negativity, sum rules as numbers).",
     ref="3 C04")
 
+CLAIMED["C08"] = dict(
+    category="other",
+    technique="symbolic folding of the THDM mass matrices / EWSB / basis setters into exact rational functions, "
+              "compared with the Hessian of the documented 2HDM potential; the closed-form masses->lambda "
+              "inversion is substituted back and shown to give the spectral form of the inputs",
+    text="The CP-even, CP-odd and charged mass matrices equal the Hessian of the general 2HDM potential (plus "
+         "Goldstone gauge-fixing terms) entry by entry; the tadpoles are its gradient and the EWSB elimination "
+         "solves them; lambda_6, lambda_7, m12^2, tan(beta) (and lambda_1..5 in the gauge basis) are stored "
+         "unmodified; and -- the core of 'reports exactly the input back' -- with the lambda_1..5 that the "
+         "mass-basis constructor computes, these matrices are identically R(alpha) diag(mH^2, mh^2) R(alpha)^T, "
+         "mA^2 P and mH+^2 P for all inputs (rational identity with sqrt(1+tan^2 beta) and sin^2+cos^2 "
+         "reductions), with alpha = atan(tan beta) - asin(sin(beta-alpha)). Goldstones are moved to index 0 by "
+         "MZ/MW after all sectors; the reported sin/cos(beta-alpha) come from the one normalised alpha_h.",
+    note=TRUST + "The 2HDM potential (arXiv:2110.13238 Eq.(1)) is written in rules_c08.spec. Not decided: the value "
+         "of alpha_h read back from the numerical eigenvector (the property text records a defect there away "
+         "from alignment: it depends on the eigen-solver's sign convention), SM fermion masses / CKM through "
+         "the SVD.",
+    ref="3 C08")
+
 NOT_APPLICABLE = {
     "C03": "numerical agreement of one-loop results with an independent higher-precision evaluation over all "
            "parameter points: depends on eigen-decomposition values; no code-shape clause of its own "
